@@ -82,6 +82,16 @@ def run_chunk(args):
             out['keys'][k] = result['nontrivial']
         if want_digests:
             out['digests'].append((idx, result.get('digest')))
+        if result['verdict'] == 'violation' and hasattr(mod, 'confirm'):
+            try:
+                ok = mod.confirm(result.get('case', scenario), result)
+            except BaseException:
+                out['harness_errors'].append({'idx': idx, 'trace': traceback.format_exc()})
+                continue
+            if not ok:
+                core.bump(out['counters'], 'discard.violation_not_reproducible_in_fresh_driver')
+                out['discards'] += 1
+                continue
         if result['verdict'] == 'violation' and len(out['violations']) < 4:
             out['violations'].append({'idx': idx, 'scenario': result.get('case', scenario), 'oracle': result['oracle'],
                                       'detail': result.get('detail'), 'signature': mod.signature(result.get('case', scenario), result)})
